@@ -31,6 +31,9 @@ TRUSTED = [
     "validate_seq (a fresh validator per call): C10_files_independent holds by construction of that model and is "
     "NOT a proof about the validator object; that the implementation does so is tested only, by sequences of files validated on ONE SpreadsheetValidator "
     "object, each file compared with the model and the statement run from the empty state",
+    "the letter case of TAG NAMES (Delay, Onset/Offset/Inset, Def, Def-expand) is below the model's abstraction: "
+    "HedTag.short_base_tag and the case-folded 'delay/' pre-filter of split_delay_tags are trusted to resolve it; "
+    "tested only, by generating every tag name in upper / lower / mixed case independently of the definition names",
     "str.casefold is modelled per character: ASCII by rule, the non-ASCII code points of the generators' name "
     "alphabet (sharp s, capital sharp s, final sigma, accented Greek, fi ligature, long s) by Gen/C10Fold.v, "
     "regenerated from CPython's str.casefold on every run; other code points are outside the model",
@@ -301,6 +304,7 @@ def cell_sevs(r):
     if row_text(r) != "n/a":
         c = [1] * bool(r.get("bad")) + [0] * bool(r.get("warn"))
         c += [0 for g in r["g"] if g[1] is not None and g[1][2] & 8 and g[1][0] != 1]
+        c += [0 for g in r["g"] if (g[1] is not None and (g[1][2] >> 4) & 3 == 2) or (len(g) > 3 and g[3] == 2)]
         cells.append(c)
     if r.get("cat"):
         cells.append(list(CAT[r["cat"]][2]))
@@ -321,16 +325,31 @@ def def_text(name, expand):
     return f"(Def-expand/{name},{body.replace('#', val)})"
 
 
-def marker_text(m, delay=None, dform=0):
-    """m = [kind, [names], form]; form bit0: Def-expand, bit1: temporal tag first, bit2: inner group."""
+def tag_case(text, tcase):
+    """letter case of a TAG NAME (HED tag names are case-insensitive): 0 as in the schema, 1 UPPER, 2 lower, 3 mIXED.
+    Only the name before the first '/' is changed, never a definition name or a value."""
+    name, sep, rest = text.partition("/")
+    lead = ""
+    while name.startswith("("):
+        lead, name = lead + "(", name[1:]
+    name = [name, name.upper(), name.lower(), name[:1].lower() + name[1:2].upper() + name[2:3].lower() + name[3:].upper()][tcase]
+    return lead + name + sep + rest
+
+
+def marker_text(m, delay=None, dform=0, dcase=None):
+    """m = [kind, [names], form]; form bit0: Def-expand, bit1: temporal tag first, bit2: inner group, bit3: warning
+    in the inner group, bits 4-5: letter case of the tag names Def / Def-expand / Onset / Offset / Inset (and of
+    Delay unless dcase says otherwise)."""
     kind, names, form = m
-    parts = [def_text(n, form & 1) for n in names]
+    tcase = (form >> 4) & 3
+    parts = [tag_case(def_text(n, form & 1), tcase) for n in names]
     if form & 2:
-        parts.insert(0, KINDS[kind])
+        parts.insert(0, tag_case(KINDS[kind], tcase))
     else:
-        parts.append(KINDS[kind])
+        parts.append(tag_case(KINDS[kind], tcase))
     if delay is not None:
-        parts.insert(1 if len(parts) > 1 else 0, delay_tag_text(delay, dform))
+        parts.insert(1 if len(parts) > 1 else 0,
+                     tag_case(delay_tag_text(delay, dform), tcase if dcase is None else dcase))
     if form & 8 and kind != 1:
         parts.append("(Red/Crimsonish)")          # legal extension inside the inner group: TAG_EXTENDED warning
     elif form & 4 and kind != 1:
@@ -339,13 +358,14 @@ def marker_text(m, delay=None, dform=0):
 
 
 def group_text(g):
-    """g = [delay|None, marker|None, dform]"""
+    """g = [delay|None, marker|None, dform[, letter case of the Delay tag name]]"""
     delay, m = g[0], g[1]
     dform = g[2] if len(g) > 2 else 0
+    dcase = g[3] if len(g) > 3 else None
     if m is not None:
-        return marker_text(m, delay, dform)
+        return marker_text(m, delay, dform, dcase)
     if delay is not None:
-        return "(" + delay_tag_text(delay, dform) + ",(Red))"
+        return "(" + tag_case(delay_tag_text(delay, dform), dcase or 0) + ",(Red))"
     return "(Red,Square)"
 
 
@@ -674,7 +694,10 @@ def rand_marker(rng, names, malformed=0.0):
         if y < 0.7:
             return [rng.randrange(3), [rng.choice(names), rng.choice(names)], rng.choice([0, 2])]   # two Defs
         return None                                                                 # plain group
-    return [rng.randrange(3), [rng.choice(names)], rng.randrange(8)]
+    form = rng.randrange(8)
+    if rng.random() < 0.3:
+        form |= rng.randrange(1, 4) << 4          # tag names in another letter case
+    return [rng.randrange(3), [rng.choice(names)], form]
 
 
 def gen_random_histories(rng, n, malformed):
@@ -709,7 +732,10 @@ def gen_random_files(rng, n, malformed=0.0, unsorted=False):
                 df = rng.randrange(2)
                 if d is not None and d != "X" and rng.random() < 0.6:      # any accepted spelling of a time unit
                     df, d = rng.choice(spell)
-                gs.append([d, m, df])
+                g = [d, m, df]
+                if d is not None and rng.random() < 0.3:
+                    g.append(rng.randrange(4))            # letter case of the Delay tag name, independent of the marker's
+                gs.append(g)
             row = {"on": t, "g": gs, "fill": int(rng.random() < 0.2),
                    "bad": int(rng.random() < malformed * 0.5)}
             if rng.random() < pwarn:
@@ -759,6 +785,20 @@ def focused_files():
         out.append({"t": "F", "file": 0, "rows": [
             {"on": 8, "g": first}, {"on": 8 + T - 1, "g": [[None, [2, ["a"], 0], 0]]},
             {"on": 8 + T + 1, "g": [[None, [2, ["A"], 0], 0]]}, {"on": 400, "g": [[None, [1, ["A"], 0], 0]]}]})
+    # (c') tag NAMES (Delay, Onset/Offset/Inset, Def, Def-expand) in every letter case, independently of each other
+    for mcase in range(4):
+        for dcase in range(4):
+            for j, (dly, df) in enumerate([(8, 0), (8, 1), (16, "2 Seconds"), ("X", 0)]):
+                for expand in (0, 1):
+                    form = (mcase << 4) | expand | (2 if j % 2 else 0)
+                    first = ([[dly, [0, ["A"], form], df, dcase]] if (mcase + dcase + j) % 2 == 0 else
+                             [[None, [0, ["A"], form], 0], [dly, [1, ["a"], form], df, dcase]])
+                    T = dly if dly != "X" else 0
+                    out.append({"t": "F", "file": 0, "rows": [
+                        {"on": 8, "g": first}, {"on": 8 + max(T - 1, 1), "g": [[None, [2, ["a"], mcase << 4], 0]]},
+                        {"on": 8 + T + 1, "g": [[None, [2, ["A"], 0], 0]]},
+                        {"on": 8 + T + 1, "g": [[T or None, [1, ["A"], form | 2], 1, dcase]]},
+                        {"on": 400, "g": [[None, [1, ["A"], (mcase << 4) | 1], 0]]}]})
     # (d) definition names with letters whose lower() differs from casefold(): every combination of spellings
     for fam in (NAMES_U[0:3], NAMES_U[3:6], NAMES_U[6:9], NAMES_U[9:12], NAMES_U[12:15]):
         for j, (s1, s2, s3) in enumerate(it.product(fam, repeat=3)):
